@@ -20,6 +20,7 @@ pub mod c17;
 pub mod c18;
 pub mod c19;
 pub mod c20;
+pub mod cold;
 
 pub fn meta(prop: &str) -> Option<Meta> {
     Some(match prop {
